@@ -30,10 +30,11 @@ pub trait BackOps: MemBuilder + Default + 'static {
     fn matches(bk: &Bk) -> bool;
     /// capacity a fixed-capacity backend must report for an element of `sz` bytes
     fn fixed_cap(sz: usize) -> Option<usize>;
-    fn reserve<Tr: ?Sized + Trait>(_v: &mut AnyVec<Tr, Self>, _n: usize) { unreachable!() }
-    fn reserve_exact<Tr: ?Sized + Trait>(_v: &mut AnyVec<Tr, Self>, _n: usize) { unreachable!() }
-    fn shrink_to_fit<Tr: ?Sized + Trait>(_v: &mut AnyVec<Tr, Self>) { unreachable!() }
-    fn shrink_to<Tr: ?Sized + Trait>(_v: &mut AnyVec<Tr, Self>, _n: usize) { unreachable!() }
+    /// `typed`: through the typed view (`downcast_mut::<T>()`), which forwards to the same raw operation
+    fn reserve<Tr: ?Sized + Trait, T: Elem>(_v: &mut AnyVec<Tr, Self>, _n: usize, _typed: bool) { unreachable!() }
+    fn reserve_exact<Tr: ?Sized + Trait, T: Elem>(_v: &mut AnyVec<Tr, Self>, _n: usize, _typed: bool) { unreachable!() }
+    fn shrink_to_fit<Tr: ?Sized + Trait, T: Elem>(_v: &mut AnyVec<Tr, Self>, _typed: bool) { unreachable!() }
+    fn shrink_to<Tr: ?Sized + Trait, T: Elem>(_v: &mut AnyVec<Tr, Self>, _n: usize, _typed: bool) { unreachable!() }
     fn with_capacity<Tr: ?Sized + Trait, T: Elem + SatisfyTraits<Tr>>(_n: usize) -> AnyVec<Tr, Self> {
         unreachable!()
     }
@@ -73,10 +74,14 @@ macro_rules! resizable_backops {
             const RAW: bool = true;
             fn matches(bk: &Bk) -> bool { matches!(bk, $pat) }
             fn fixed_cap(_sz: usize) -> Option<usize> { None }
-            fn reserve<Tr: ?Sized + Trait>(v: &mut AnyVec<Tr, Self>, n: usize) { v.reserve(n) }
-            fn reserve_exact<Tr: ?Sized + Trait>(v: &mut AnyVec<Tr, Self>, n: usize) { v.reserve_exact(n) }
-            fn shrink_to_fit<Tr: ?Sized + Trait>(v: &mut AnyVec<Tr, Self>) { v.shrink_to_fit() }
-            fn shrink_to<Tr: ?Sized + Trait>(v: &mut AnyVec<Tr, Self>, n: usize) { v.shrink_to(n) }
+            fn reserve<Tr: ?Sized + Trait, T: Elem>(v: &mut AnyVec<Tr, Self>, n: usize, typed: bool) {
+                if typed { v.downcast_mut::<T>().expect("typed view").reserve(n) } else { v.reserve(n) } }
+            fn reserve_exact<Tr: ?Sized + Trait, T: Elem>(v: &mut AnyVec<Tr, Self>, n: usize, typed: bool) {
+                if typed { v.downcast_mut::<T>().expect("typed view").reserve_exact(n) } else { v.reserve_exact(n) } }
+            fn shrink_to_fit<Tr: ?Sized + Trait, T: Elem>(v: &mut AnyVec<Tr, Self>, typed: bool) {
+                if typed { v.downcast_mut::<T>().expect("typed view").shrink_to_fit() } else { v.shrink_to_fit() } }
+            fn shrink_to<Tr: ?Sized + Trait, T: Elem>(v: &mut AnyVec<Tr, Self>, n: usize, typed: bool) {
+                if typed { v.downcast_mut::<T>().expect("typed view").shrink_to(n) } else { v.shrink_to(n) } }
             fn with_capacity<Tr: ?Sized + Trait, T: Elem + SatisfyTraits<Tr>>(n: usize) -> AnyVec<Tr, Self> {
                 AnyVec::<Tr, Self>::with_capacity::<T>(n)
             }
@@ -92,10 +97,14 @@ impl<const C0: usize> BackOps for crate::reloc::Reloc<C0> {
     const RAW: bool = true;
     fn matches(bk: &Bk) -> bool { *bk == Bk::Reloc(C0) }
     fn fixed_cap(_sz: usize) -> Option<usize> { None }
-    fn reserve<Tr: ?Sized + Trait>(v: &mut AnyVec<Tr, Self>, n: usize) { v.reserve(n) }
-    fn reserve_exact<Tr: ?Sized + Trait>(v: &mut AnyVec<Tr, Self>, n: usize) { v.reserve_exact(n) }
-    fn shrink_to_fit<Tr: ?Sized + Trait>(v: &mut AnyVec<Tr, Self>) { v.shrink_to_fit() }
-    fn shrink_to<Tr: ?Sized + Trait>(v: &mut AnyVec<Tr, Self>, n: usize) { v.shrink_to(n) }
+    fn reserve<Tr: ?Sized + Trait, T: Elem>(v: &mut AnyVec<Tr, Self>, n: usize, typed: bool) {
+        if typed { v.downcast_mut::<T>().expect("typed view").reserve(n) } else { v.reserve(n) } }
+    fn reserve_exact<Tr: ?Sized + Trait, T: Elem>(v: &mut AnyVec<Tr, Self>, n: usize, typed: bool) {
+        if typed { v.downcast_mut::<T>().expect("typed view").reserve_exact(n) } else { v.reserve_exact(n) } }
+    fn shrink_to_fit<Tr: ?Sized + Trait, T: Elem>(v: &mut AnyVec<Tr, Self>, typed: bool) {
+        if typed { v.downcast_mut::<T>().expect("typed view").shrink_to_fit() } else { v.shrink_to_fit() } }
+    fn shrink_to<Tr: ?Sized + Trait, T: Elem>(v: &mut AnyVec<Tr, Self>, n: usize, typed: bool) {
+        if typed { v.downcast_mut::<T>().expect("typed view").shrink_to(n) } else { v.shrink_to(n) } }
     fn with_capacity<Tr: ?Sized + Trait, T: Elem + SatisfyTraits<Tr>>(n: usize) -> AnyVec<Tr, Self> {
         AnyVec::<Tr, Self>::with_capacity::<T>(n)
     }
@@ -167,10 +176,11 @@ macro_rules! cloneable_trops {
                 match (depth, ins) {
                     (1, None) => lib!(dst.push(l1)),
                     (1, Some(i)) => lib!(dst.insert(i, l1)),
-                    (2, None) => { let l2 = l1.lazy_clone(); lib!(dst.push(l2)) }
-                    (2, Some(i)) => { let l2 = l1.lazy_clone(); lib!(dst.insert(i, l2)) }
-                    (_, None) => { let l2 = l1.lazy_clone(); let l3 = l2.lazy_clone(); lib!(dst.push(l3)) }
-                    (_, Some(i)) => { let l2 = l1.lazy_clone(); let l3 = l2.lazy_clone(); lib!(dst.insert(i, l3)) }
+                    // depth 2 and 3 also COPY the lazy clone (Clone for LazyClone) and drop the original: neither clones nor destroys
+                    (2, None) => { let l2 = l1.lazy_clone(); let l2c = lib!(l2.clone()); drop(l2); lib!(dst.push(l2c)) }
+                    (2, Some(i)) => { let l2 = l1.lazy_clone(); let l2c = lib!(l2.clone()); drop(l2); lib!(dst.insert(i, l2c)) }
+                    (_, None) => { let l1c = lib!(l1.clone()); let l2 = l1c.lazy_clone(); let l3 = l2.lazy_clone(); lib!(dst.push(l3)) }
+                    (_, Some(i)) => { let l1c = lib!(l1.clone()); let l2 = l1c.lazy_clone(); let l3 = l2.lazy_clone(); lib!(dst.insert(i, l3)) }
                 }
             }
             fn lazy_pop<M: MemBuilder>(dst: &mut AnyVec<Self, M>, h: &Pop<'_, Self, M>) { lib!(dst.push(h.lazy_clone())) }
@@ -402,8 +412,11 @@ impl<Tr: ?Sized + TrOps, M: BackOps> World<Tr, M> {
             }
             Sink::Forget => std::mem::forget(h),
             Sink::Mut(k2) => {
+                // the shared downcast first: it must see the value the exclusive one is about to replace
+                let seen = lib!(h.downcast_ref::<T>()).expect("downcast_ref to the real type failed").token();
                 let r: &mut T = lib!(h.downcast_mut::<T>()).expect("downcast_mut to the real type failed");
                 let old = std::mem::replace(r, T::new());
+                if old.token() != seen { with_reg(|r| r.violations.push(format!("downcast_ref-saw={}-downcast_mut-saw={}", seen, old.token()))); }
                 ret.push(old.token());
                 drop(old);
                 Self::sink::<T, H>(h, k2, get_dst, ret);
@@ -837,10 +850,10 @@ impl<Tr: ?Sized + TrOps, M: BackOps> World<Tr, M> {
                 self.vecs[*d] = Some(c);
             }
             Op::CloneEmptyIn(..) => panic!("clone_empty_in is run by its own family"),
-            Op::Reserve(v, n) => { let vv = self.v(*v); lib!(M::reserve(vv, *n)) }
-            Op::ReserveExact(v, n) => { let vv = self.v(*v); lib!(M::reserve_exact(vv, *n)) }
-            Op::ShrinkToFit(v) => { let vv = self.v(*v); lib!(M::shrink_to_fit(vv)) }
-            Op::ShrinkTo(v, n) => { let vv = self.v(*v); lib!(M::shrink_to(vv, *n)) }
+            Op::Reserve(v, n, ty) => { let vv = self.v(*v); lib!(M::reserve::<Tr, T>(vv, *n, *ty)) }
+            Op::ReserveExact(v, n, ty) => { let vv = self.v(*v); lib!(M::reserve_exact::<Tr, T>(vv, *n, *ty)) }
+            Op::ShrinkToFit(v, ty) => { let vv = self.v(*v); lib!(M::shrink_to_fit::<Tr, T>(vv, *ty)) }
+            Op::ShrinkTo(v, n, ty) => { let vv = self.v(*v); lib!(M::shrink_to::<Tr, T>(vv, *n, *ty)) }
             Op::Views(v) => {
                 let vv = self.v(*v);
                 let base = vv.downcast_ref::<T>().unwrap().as_ptr() as usize;
@@ -1124,7 +1137,7 @@ impl<Tr: ?Sized + TrOps, M: BackOps> World<Tr, M> {
                 // of the range iterator is exercised; the vector lives and dies inside this step
                 assert!(T::SIZE == 0 && !T::DG && M::RESIZABLE, "cursor_max needs a zero-sized element without drop glue");
                 let mut v = lib!(AnyVec::<Tr, M>::new::<T>());
-                lib!(M::reserve(&mut v, usize::MAX));
+                lib!(M::reserve::<Tr, T>(&mut v, usize::MAX, false));
                 unsafe { lib!(v.set_len(usize::MAX)) };
                 fn hint<I: ExactSizeIterator>(it: &I) -> u64 {
                     let (lo, hi) = it.size_hint();
